@@ -96,13 +96,23 @@ def _copy_of(program: Program, recv: ClassInfo, f: FuncInfo, _memo: dict) -> Cop
     if newvar is None:
         info.problems.append("no new object is created (neither __new__ nor super().__copy__())")
         return info
+    # the new object under other names: `newone = clone(self)` after inlining reads `tmp = ...__new__(...); newone = tmp`
+    newvars = {newvar}
+    grew = True
+    while grew:
+        grew = False
+        for node in ast.walk(f.node):
+            if (isinstance(node, ast.Assign) and len(node.targets) == 1 and isinstance(node.targets[0], ast.Name)
+                    and isinstance(node.value, ast.Name) and node.value.id in newvars and node.targets[0].id not in newvars):
+                newvars.add(node.targets[0].id)
+                grew = True
     new_dict_alias = {n.targets[0].id for n in ast.walk(f.node)
                       if isinstance(n, ast.Assign) and len(n.targets) == 1 and isinstance(n.targets[0], ast.Name)
-                      and isinstance(n.value, ast.Attribute) and n.value.attr == "__dict__" and isinstance(n.value.value, ast.Name) and n.value.value.id == newvar}
+                      and isinstance(n.value, ast.Attribute) and n.value.attr == "__dict__" and isinstance(n.value.value, ast.Name) and n.value.value.id in newvars}
     for node in ast.walk(f.node):
         if isinstance(node, ast.Call) and isinstance(node.func, ast.Attribute) and node.func.attr == "update":
             tgt = node.func.value
-            tgt_is_new_dict = (isinstance(tgt, ast.Attribute) and tgt.attr == "__dict__" and isinstance(tgt.value, ast.Name) and tgt.value.id == newvar) or (
+            tgt_is_new_dict = (isinstance(tgt, ast.Attribute) and tgt.attr == "__dict__" and isinstance(tgt.value, ast.Name) and tgt.value.id in newvars) or (
                 isinstance(tgt, ast.Name) and tgt.id in new_dict_alias)
             if (tgt_is_new_dict and node.args and isinstance(node.args[0], ast.Attribute)
                     and node.args[0].attr == "__dict__" and isinstance(node.args[0].value, ast.Name)
@@ -110,14 +120,14 @@ def _copy_of(program: Program, recv: ClassInfo, f: FuncInfo, _memo: dict) -> Cop
                 info.full_dict = True
         if isinstance(node, ast.Assign):
             for t in node.targets:
-                if (isinstance(t, ast.Attribute) and isinstance(t.value, ast.Name) and t.value.id == newvar):
+                if (isinstance(t, ast.Attribute) and isinstance(t.value, ast.Name) and t.value.id in newvars):
                     if _fresh_container_expr(node.value, selfname, t.attr):
                         info.recopied.add(t.attr)
                     else:
                         info.recopied.discard(t.attr)
-        if isinstance(node, ast.Return) and isinstance(node.value, ast.Name) and node.value.id == newvar:
+        if isinstance(node, ast.Return) and isinstance(node.value, ast.Name) and node.value.id in newvars:
             info.returns_new = True
-    _generic_copy_loops(program, recv, f, info, selfname, newvar)
+    _generic_copy_loops(program, recv, f, info, selfname, newvars)
     return info
 
 
@@ -159,11 +169,11 @@ def _names_comprehension(e: ast.expr, objs: set[str]) -> set[str] | None:
     return _isinstance_kinds(g.ifs[0], val)
 
 
-def _generic_copy_loops(program: Program, recv: ClassInfo, f: FuncInfo, info: CopyInfo, selfname: str, newvar: str) -> None:
+def _generic_copy_loops(program: Program, recv: ClassInfo, f: FuncInfo, info: CopyInfo, selfname: str, newvars: set) -> None:
     """`for name in <names>: state[name] = copy(state[name])` -- a generic re-copy loop.  <names> is resolved to a set of
     attribute names (literal tuple; a tuple stored by a constructor: the container attributes assigned *before* it) or to
     the kinds an instance-dict scan filters on.  Any other loop in __copy__ is not understood: no verdict."""
-    objs = {selfname, newvar}
+    objs = {selfname} | newvars
     dict_alias = set()
     for node in ast.walk(f.node):
         if isinstance(node, ast.Assign) and len(node.targets) == 1 and isinstance(node.targets[0], ast.Name):
@@ -180,11 +190,11 @@ def _generic_copy_loops(program: Program, recv: ClassInfo, f: FuncInfo, info: Co
                 t = st.targets[0]
                 key = t.slice
                 base_ok = (isinstance(t.value, ast.Name) and t.value.id in dict_alias) or (
-                    isinstance(t.value, ast.Attribute) and t.value.attr == "__dict__" and isinstance(t.value.value, ast.Name) and t.value.value.id == newvar)
+                    isinstance(t.value, ast.Attribute) and t.value.attr == "__dict__" and isinstance(t.value.value, ast.Name) and t.value.value.id in newvars)
                 if base_ok and isinstance(key, ast.Name) and key.id == name and _fresh_container_expr(st.value, selfname, name):
                     return True
             if (isinstance(st, ast.Expr) and isinstance(st.value, ast.Call) and isinstance(st.value.func, ast.Name) and st.value.func.id == "setattr"
-                    and len(st.value.args) == 3 and isinstance(st.value.args[0], ast.Name) and st.value.args[0].id == newvar
+                    and len(st.value.args) == 3 and isinstance(st.value.args[0], ast.Name) and st.value.args[0].id in newvars
                     and isinstance(st.value.args[1], ast.Name) and st.value.args[1].id == name and _fresh_container_expr(st.value.args[2], selfname, name)):
                 return True
         return False
@@ -307,14 +317,14 @@ def _stored_names(program: Program, recv: ClassInfo, attr: str) -> set[str] | No
 
 
 # --------------------------------------------------------------------------- guards
-def _alias_none_guard(guards: tuple) -> bool:
-    for g in guards:
-        try:
-            t = ast.parse(g, mode="eval").body
-        except SyntaxError:
-            continue
-        conj = t.values if isinstance(t, ast.BoolOp) and isinstance(t.op, ast.And) else [t]
-        for c in conj:
+def _alias_none_guard(guards: tuple, program: Program | None = None, func: str = "") -> bool:
+    """one of the enclosing tests requires `<x>.alias is None` / `not <x>.alias`; a test that calls a predicate helper
+    (`if self._rejoins_unaliased_table(join.item, ...)`) is read through the helper's returned expression"""
+    def conj_of(t):
+        return t.values if isinstance(t, ast.BoolOp) and isinstance(t.op, ast.And) else [t]
+
+    def holds(t, depth=0) -> bool:
+        for c in conj_of(t):
             if (isinstance(c, ast.Compare) and len(c.ops) == 1 and isinstance(c.ops[0], ast.Is)
                     and isinstance(c.left, ast.Attribute) and c.left.attr == "alias"
                     and isinstance(c.comparators[0], ast.Constant) and c.comparators[0].value is None):
@@ -322,7 +332,43 @@ def _alias_none_guard(guards: tuple) -> bool:
             if (isinstance(c, ast.UnaryOp) and isinstance(c.op, ast.Not)
                     and isinstance(c.operand, ast.Attribute) and c.operand.attr == "alias"):
                 return True
+            if isinstance(c, ast.Call) and program is not None and depth < 3:
+                e = _predicate_expr(program, func, c)
+                if e is not None and holds(e, depth + 1):
+                    return True
+        return False
+
+    for g in guards:
+        try:
+            t = ast.parse(g, mode="eval").body
+        except SyntaxError:
+            continue
+        if holds(t):
+            return True
     return False
+
+
+def _predicate_expr(program: Program, func: str, call: ast.Call):
+    """the expression a predicate helper returns (`self._p(...)`, `Class._p(...)`, `_p(...)` called from <func>)"""
+    from ..inline import _as_expr
+    host = None
+    cn = func.rsplit(".", 1)[0] if "." in func else ""
+    hc = program.find_cls(cn) if cn else None
+    fn = call.func
+    if isinstance(fn, ast.Attribute) and isinstance(fn.value, ast.Name):
+        k = hc if fn.value.id in ("self", "cls") else program.find_cls(fn.value.id)
+        if k is not None:
+            host = k.resolve(fn.attr)
+    elif isinstance(fn, ast.Name):
+        mods = [hc.module] if hc is not None else list(program.modules.values())
+        for m in mods:
+            r = program.resolve_global(m, fn.id)
+            if r and r[0] == "func":
+                host = r[1]
+                break
+    if host is None:
+        return None
+    return _as_expr(list(host.node.body))
 
 
 # --------------------------------------------------------------------------- decorator shape
@@ -617,7 +663,7 @@ def check(program: Program, run: Run) -> None:
                         what = (f"{defname} writes through a shared object: {e.kind} self.{p} ({e.how}); a shallow container "
                                 f"copy shares its elements{cont}")
                 elif kind == "param":
-                    ok = (e.kind == "rebind" and path == ("alias",) and _alias_none_guard(e.guards))
+                    ok = (e.kind == "rebind" and path == ("alias",) and _alias_none_guard(e.guards, program, e.func))
                     run.ob("C01/R3 argument write is the guarded alias tag", subject, ok,
                            detail=f"{e.stmt} guards={list(e.guards)[-2:]}{cont}", where=e.loc)
                     if not ok:
@@ -693,7 +739,7 @@ def check(program: Program, run: Run) -> None:
                             if e.org[0] == "self" and e.org[2][:1] == (attr,) and len(e.org[2]) > 1:
                                 effs.append(replace(e, org=("self", None, e.org[2][1:])))
             writes = [e for e in effs if e.org[0] == "self" and e.org[2] and "*" not in e.org[2]
-                      and not (e.kind == "rebind" and e.org[2][-1] == "alias" and _alias_none_guard(e.guards))]
+                      and not (e.kind == "rebind" and e.org[2][-1] == "alias" and _alias_none_guard(e.guards, program, e.func))]
             run.ob("C01/R6 non-builder method handing the receiver on does not write it", f"{c.qualname}::{g.cls.qualname}.{n}",
                    not writes, detail="; ".join(f"{e.kind} {org_str(e.org)}" for e in writes[:3]), where=g.loc())
             for e in writes:
